@@ -341,6 +341,18 @@ func PrepareFact(ctx *Context, givenId string, x Map) (id string, m map[string]i
 		Log(DEBUG, ctx, "PrepareFact", "givenId", givenId, "ttl", ttl)
 	}
 
+	if SystemParameters.IdInjectionTime == InjectIdAtWrite {
+		// A fact that already carries a different id can't be
+		// stored under this one (this used to panic).
+		if existing, have := m[KW_id]; have {
+			if previous, _ := existing.(string); previous != id {
+				err = fmt.Errorf("fact carries %s %#v, which is not its id '%s'", KW_id, existing, id)
+				Log(UERR, ctx, "PrepareFact", "givenId", givenId, "error", err)
+				return
+			}
+		}
+	}
+
 	maybeInjectId(ctx, id, m, true)
 
 	Log(DEBUG, ctx, "PrepareFact", "givenId", givenId, "id", id, "x", m)
